@@ -88,6 +88,17 @@ CLAIMED = {
         note="Trusted: as C39; generator tools/objgen.py computes the expected closure independently; roots KEEP/retain/notes/exported symbols are not in the generated stream (partial on the root set).",
         technique="Coq proof (closure = handled set at every terminal state of the transition system) + model/implementation correspondence on generated reference graphs",
         design_ref="DESIGN.md §3 C05"),
+    "C40": dict(
+        text="S1 for safety, PARTIAL for progress. The hand-off protocol (reserve by load+CAS, pop, deliver per bucket through the slot, take-or-park, return, inline respawn, unreserve) is an "
+             "executable transition function; proved for all reachable states (= all interleavings, any G, B, capacity): pool conservation and pool_restored; a bucket merges only the strings of "
+             "its next group, delivered by that group's input task and not yet taken (exactly once, in order); the group counter moves by one only after a merge; no hand-off is lost (delivered "
+             "and untaken => in the slot); a parked bucket waits for an undelivered group. Progress: terminal_done_partial (nothing can move and all groups popped => all buckets done, pool full). "
+             "NOT proved: that a state where nothing can move has popped every group (failed-CAS stranding); covered by trace validation and the finished-state check of every recorded history only.",
+        note="Trusted: Coq kernel + vm_compute, no axioms; hand model, sequentially consistent interleavings; tie (T3) = event log of a verif_hooks build (events appended inside the slot "
+             "critical section or with the log mutex held across the atomic), POP events re-positioned in pop order by the driver, every history replayed through the same step function with "
+             "observed values compared and required to end in the finished state.",
+        technique="Coq proof: 13-field invariant over an executable transition function (all interleavings) + trace validation of real executions by the same function",
+        design_ref="DESIGN.md §3 C40, Appendix C.2"),
 }
 
 PENDING_REASON = "not claimed yet: model/theorems for this property are not built in this revision (see DESIGN.md §8 construction order)"
